@@ -7,7 +7,7 @@ def run(tier):
     run = Run("C05", tier)
     run.confirm_known()
     conds = []
-    to = 300 if tier == "quick" else 1800
+    to = 600 if tier == "quick" else 1800
     for spec, q, t in STR_SPECS:
         n = q if tier == "quick" else t
         env = {"H_SPEC": spec, "H_LEN": str(n)}
